@@ -2435,7 +2435,12 @@ class Graph:
             """
             for deme in data["demes"]:
                 for epoch in deme["epochs"]:
-                    if epoch["size_function"] in ("constant", "exponential"):
+                    # remove the size function only if resolution would infer it
+                    if epoch["start_size"] == epoch["end_size"]:
+                        inferred_size_function = "constant"
+                    else:
+                        inferred_size_function = "exponential"
+                    if epoch["size_function"] == inferred_size_function:
                         del epoch["size_function"]
                     if epoch["start_size"] == epoch["end_size"]:
                         del epoch["end_size"]
@@ -2449,7 +2454,9 @@ class Graph:
                 if math.isinf(deme["start_time"]):
                     del deme["start_time"]
                 if "ancestors" in deme and len(deme["ancestors"]) == 1:
-                    del deme["proportions"]
+                    # resolution infers a proportion of exactly 1
+                    if deme["proportions"] == [1]:
+                        del deme["proportions"]
                     # start time needed for more than 1 ancestor
                     if self[deme["ancestors"][0]].end_time == deme["start_time"]:
                         del deme["start_time"]
